@@ -116,6 +116,7 @@ def oracle(case, R):
         fext[i] = rng.integers(-3, 4, nf) + 1j * rng.integers(-3, 4, nf)
     if not np.any(fext):
         fext[oS[0]] = 1.0
+    fext *= float(case.get("fscale", 1.0))        # any units: interface acceleration and force are linear in it
     # ---- reference: coupled system, interface DOF merged (load interface DOF j == source interface DOF j)
     oL = [i for i in range(nL) if i not in bL]
     nT = nS + len(oL)
@@ -303,7 +304,8 @@ def cases(draw):
             "gyroS": draw(st.sampled_from([0.0, 0.0, 0.3, 1.0])), "gyroL": draw(st.sampled_from([0.0, 0.0, 0.3, 1.0])),
             "heavyS": draw(st.sampled_from([0.0, 0.0, 1.5, 5.0])), "heavyL": draw(st.sampled_from([0.0, 0.0, 0.0, 3.0])),
             "fs": draw(st.sampled_from(["none", "FreqDirect", "SolveUnc", "SolveUnc_h", "SolveUnc_h_used"])),
-            "fs_h": draw(st.sampled_from([1e-3, 1e-2]))}
+            "fs_h": draw(st.sampled_from([1e-3, 1e-2])),
+            "fscale": draw(st.sampled_from([1.0, 1.0, 1e-12, 1e10]))}
 
 
 PARTS = [
